@@ -5,6 +5,7 @@ import ast
 
 from sa import pat, source
 from sa.cfg import cfg_of, guards
+from sa.minieval import CannotEval, Record, ev
 from sa.classes import is_logging_stmt
 from sa.source import AnchorMissing, arg_of, bind_args, dotted, inline, is_self_attr, last_attr, local_defs, params_of, short, u, walk_body
 from sa.sym import comparison, parse_expr, rat_equal
@@ -15,6 +16,7 @@ def inline_node(e, defs):
 
 _D = "esrally/driver/driver.py"
 _C = "esrally/client/context.py"
+_A = "esrally/client/asynchronous.py"
 
 EXPECTED_FLOW = {  # value of the request loop (label = its name in the frozen source; located by ROLE, see flow_roles)  ->  Sample attribute it must land in
     "self.task": "task",
@@ -61,6 +63,403 @@ def unpacked_result(run_call):
     if isinstance(asg, ast.Assign) and len(asg.targets) == 1 and isinstance(asg.targets[0], ast.Tuple) and all(isinstance(x, ast.Name) for x in asg.targets[0].elts):
         return [x.id for x in asg.targets[0].elts]
     return None
+
+
+def task_start_of(call, L, g, defs):
+    """The local holding the task start: the EARLIEST read of the monotonic clock before the request loop (a later pre-loop read - e.g. the schedule start taken after the
+    ramp-up wait - is a different role, see schedule_anchor)."""
+    cands = [k for k, v in defs.items() if isinstance(v, ast.Call) and dotted(v.func) == "time.perf_counter" and L not in list(source.ancestors(v))]
+    if not cands:
+        raise AnchorMissing("task start timestamp (perf_counter before the loop)")
+
+    def at(k):
+        return g.node_of(defs[k])
+
+    first = [k for k in cands if all(k == o or (g.path_exists(at(k), at(o)) and not g.path_exists(at(o), at(k))) for o in cands)]
+    if len(first) != 1:
+        raise AnchorMissing(f"task start timestamp: the pre-loop clock reads {sorted(cands)} are not totally ordered")
+    return first[0]
+
+
+# ---- the executor's start-up (everything before the request loop) decided on values ------------------------------------------------------------------------------------------------
+# The zero point of the throughput schedule is whatever the loop adds the scheduled time to. Whether that value is a reading of the monotonic clock, and whether it was taken
+# before or after the client's ramp-up wait, is decided by running the EXTRACTED start-up statements on a virtual clock (a clock read yields the virtual time, `await
+# asyncio.sleep(x)` advances it by x) for representative values of the wait amount; if / conditional-expression tests are evaluated by sa.minieval on those values, a test that
+# depends on anything else forks both ways. No repository code is executed. Local helper: sa.minieval has no notion of time or of statements.
+
+_T0 = 5000  # virtual monotonic time at which the executor is entered
+_WAITS = (0, 1000)  # representative ramp-up wait amounts: none / a long one
+
+
+class _Opaque:
+    def __repr__(self):
+        return "?"
+
+
+_OPQ = _Opaque()
+
+
+class _SimUnsupported(Exception):
+    pass
+
+
+class _St:
+    """one abstract path through the start-up code: values of the locals, virtual time, end of the ramp-up wait (None: this path did not wait)"""
+
+    def __init__(self, env=None, t=_T0, wait_end=None, wait_from=None, unknown_wait=False):
+        self.env, self.t, self.wait_end, self.wait_from, self.unknown_wait = dict(env or {}), t, wait_end, wait_from, unknown_wait
+
+    def copy(self):
+        return _St(self.env, self.t, self.wait_end, self.wait_from, self.unknown_wait)
+
+    def plain(self):
+        return {k: v for k, v in self.env.items() if v is not _OPQ}
+
+
+def _is_sleep(n):
+    return isinstance(n, ast.Await) and isinstance(n.value, ast.Call) and dotted(n.value.func) == "asyncio.sleep"
+
+
+def _is_clock(n):
+    return isinstance(n, ast.Call) and dotted(n.func) == "time.perf_counter" and not n.args and not n.keywords
+
+
+class _Sim:
+    def __init__(self, L, roots, w):
+        self.L, self.roots, self.w, self.reached = L, set(roots), w, []
+
+    # -- expressions
+    def bound(self, e, st):
+        """copy of e in which the wait amount (by its defining expression) and clock reads are replaced by their values on this path"""
+        sim = self
+
+        class T(ast.NodeTransformer):
+            def visit(self, n):
+                if isinstance(n, ast.expr) and u(n) in sim.roots:
+                    return ast.Constant(value=sim.w)
+                if _is_clock(n):
+                    return ast.Constant(value=st.t)
+                return self.generic_visit(n)
+
+        return T().visit(source.clone(e))
+
+    def val(self, e, st):
+        try:
+            v = ev(self.bound(e, st), st.plain())
+        except (CannotEval, TypeError, ValueError, KeyError, AttributeError):
+            return _OPQ
+        return v
+
+    def truth(self, e, st):
+        v = self.val(e, st)
+        return None if v is _OPQ else bool(v)
+
+    def vals(self, e, st):
+        """[(value, state)]: a conditional expression whose test cannot be decided forks"""
+        if isinstance(e, ast.IfExp):
+            t = self.truth(e.test, st)
+            out = []
+            if t is not False:
+                out += self.vals(e.body, st if t else st.copy())
+            if t is not True:
+                out += self.vals(e.orelse, st if t is False else st.copy())
+            return out
+        return [(self.val(e, st), st)]
+
+    # -- statements
+    def block(self, stmts, states):
+        for s in stmts:
+            nxt = []
+            for st in states:
+                nxt += self.stmt(s, st)
+            states = nxt
+            if len(states) + len(self.reached) > 64:
+                raise _SimUnsupported("more than 64 paths through the executor's start-up code")
+            if not states:
+                break
+        return states
+
+    def _forget(self, s, st):
+        for n in ast.walk(s):
+            if isinstance(n, ast.Name) and isinstance(n.ctx, ast.Store):
+                st.env[n.id] = _OPQ
+            if _is_sleep(n):
+                st.unknown_wait = True
+
+    def stmt(self, s, st):
+        if s is self.L:
+            self.reached.append(st)
+            return []
+        if isinstance(s, ast.Assign):
+            if len(s.targets) == 1 and isinstance(s.targets[0], ast.Name):
+                out = []
+                for v, st2 in self.vals(s.value, st):
+                    st2.env[s.targets[0].id] = v
+                    out.append(st2)
+                return out
+            for t in s.targets:
+                self._forget(t, st)
+            return [st]
+        if isinstance(s, (ast.AugAssign, ast.AnnAssign)):
+            self._forget(s.target, st)
+            return [st]
+        if isinstance(s, ast.Expr):
+            if _is_sleep(s.value):
+                a = self.val(s.value.value.args[0], st) if s.value.value.args else _OPQ
+                if isinstance(a, (int, float)) and not isinstance(a, bool):
+                    if a > 0:
+                        st.wait_from = st.t
+                        st.t += a
+                        st.wait_end = st.t
+                else:
+                    st.unknown_wait = True
+            return [st]
+        if isinstance(s, ast.If):
+            t = self.truth(s.test, st)
+            out = []
+            if t is not False:
+                out += self.block(s.body, [st if t else st.copy()])
+            if t is not True:
+                out += self.block(s.orelse, [st if t is False else st.copy()])
+            return out
+        if isinstance(s, ast.Try):
+            out = self.block(s.body, [st])  # exceptional paths never enter the request loop afterwards
+            out = self.block(s.orelse, out) if s.orelse else out
+            return self.block(s.finalbody, out) if s.finalbody else out
+        if isinstance(s, (ast.With, ast.AsyncWith)):
+            for i in s.items:
+                if i.optional_vars is not None:
+                    self._forget(i.optional_vars, st)
+            return self.block(s.body, [st])
+        if isinstance(s, (ast.Return, ast.Raise, ast.Break, ast.Continue)):
+            return []
+        if isinstance(s, (ast.For, ast.AsyncFor, ast.While, ast.Match)):
+            if any(n is self.L for n in ast.walk(s)):
+                raise _SimUnsupported(f"the request loop is nested in another compound statement (line {s.lineno})")
+            self._forget(s, st)
+            return [st]
+        return [st]  # def / class / import / pass / assert / global / delete: no effect on the values decided here
+
+
+def startup_paths(call, L, roots, w):
+    """abstract paths of the executor from its entry to the request loop for the wait amount w (see _Sim)"""
+    sim = _Sim(L, roots, w)
+    sim.block(call.body, [_St()])
+    return sim.reached
+
+
+def schedule_zero(body, st, ctxvar, sched):
+    """value of the schedule's zero point on the start-up path st: request_end - scheduled - <throttled latency> (evaluated with scheduled = 0); None if it cannot be evaluated"""
+    R = 10 ** 7
+    env = st.plain()
+    env[ctxvar] = Record(request_end=R, request_start=R - 1)
+    env[sched] = 0
+    try:
+        v = ev(body, env)
+    except (CannotEval, TypeError, ValueError, KeyError, AttributeError):
+        return None
+    return R - v if isinstance(v, (int, float)) and not isinstance(v, bool) else None
+
+
+def pre_loop_waits(call, L, g):
+    """the client's ramp-up wait by role: `await asyncio.sleep(..)` executed before the request loop is entered"""
+    Lh = g.node_of(L)
+    return [n for n in walk_body(call) if _is_sleep(n) and not any(a is L for a in source.ancestors(n)) and g.path_exists(g.node_of(n), Lh)]
+
+
+def schedule_zero_cases(call, L, g, defs, lat_body, ctxvar, sched):
+    """(ramp-up waits, [(wait amount, start-up path, value of the schedule's zero point on it or None)]) - see _Sim / schedule_zero"""
+    waits = pre_loop_waits(call, L, g)
+    roots = {u(_root(w.value.args[0], defs)) for w in waits if w.value.args}  # the wait amount, named by its defining expression (alias chains followed)
+    ldefs = {k: v for k, v in defs.items() if any(a is L for a in source.ancestors(v))}  # temporaries of the loop body are folded, start-up locals are looked up on the path
+    body = inline_node(lat_body, ldefs)
+    out = []
+    for w in _WAITS:
+        for st in startup_paths(call, L, roots, w):
+            out.append((w, st, schedule_zero(body, st, ctxvar, sched)))
+    return waits, out
+
+
+def schedule_zero_is_clock_reading(call, L, g, defs, lat_body, ctxvar, sched):
+    """(ok, detail): the throttled latency is request_end - (Z + scheduled) for a loop-invariant Z (symbolic: rational normal form), and Z evaluates to a reading of the monotonic
+    clock taken between the executor's entry and the loop entry on every start-up path that can be evaluated (paths that cannot are O4.7's business)."""
+    from fractions import Fraction
+
+    from sa.sym import NotRational, ratfun
+
+    if ctxvar is None or lat_body is None:
+        return False, ""
+    try:
+        z = ratfun(ast.BinOp(left=parse_expr(f"{ctxvar}.request_end - {sched}"), op=ast.Sub(), right=inline_node(lat_body, defs)))
+    except NotRational as e:
+        return False, f"not an arithmetic formula: {e}"
+    per_request = {n.id for n in ast.walk(L) if isinstance(n, ast.Name) and isinstance(n.ctx, ast.Store)} | {ctxvar, sched}
+
+    def varies(atom):
+        try:
+            t = parse_expr(atom)
+        except SyntaxError:
+            return True
+        return any(isinstance(n, (ast.Call, ast.Await)) or (isinstance(n, ast.Name) and n.id in per_request) for n in ast.walk(t))
+
+    if z.den != {(): Fraction(1)} or not z.num or any(varies(a) for a in z.atoms()):
+        return False, f"request_end - scheduled - latency = {z!r}: not a zero point that is the same for every request of the client"
+    try:
+        _, cases = schedule_zero_cases(call, L, g, defs, lat_body, ctxvar, sched)
+    except _SimUnsupported:
+        return True, ""
+    for w, st, zero in cases:
+        if zero is not None and not _T0 <= zero <= st.t:
+            return False, (f"with a ramp-up wait of {w} the schedule's zero point evaluates to {zero:g} on a virtual monotonic clock that shows {_T0} at the executor's entry and "
+                           f"{st.t:g} when the request loop is entered: not a reading of that clock taken while the client starts")
+    return True, ""
+
+
+def schedule_start_rule(chk, rid, call, L, g, defs, lat_body, ctxvar, sched):
+    """F40 (rally 249cfef): the zero point of the client's throughput schedule is not earlier than the end of its ramp-up wait. Anchored before the wait, a client that rally
+    itself held back for W seconds finds every request scheduled within W overdue, issues them back-to-back and reports latencies of up to W although it was never behind.
+    The zero point is located by role (what the throttled latency adds to the scheduled time; O4.3 ties the sleep-until to the same T), the wait is the sleep before the loop,
+    the verdict is decided on values (virtual clock, wait amounts _WAITS). time_period may keep the earlier task start."""
+    chk.rule(rid, "the zero point of the throughput schedule (the Z of the throttled latency request_end - (Z + scheduled) and of the sleep-until) is a reading of the monotonic clock "
+             "that is not earlier than the end of the client's ramp-up wait", 2,
+             "a client delayed by ramp-up treats all requests scheduled within its delay as overdue: they are issued back-to-back (target throughput exceeded) and each reports "
+             "a latency that contains the ramp-up delay although the client was never behind schedule")
+    if lat_body is None or ctxvar is None:
+        raise AnchorMissing("throttled latency formula (conditional expression handed to sampler.add as latency)")
+    waits = pre_loop_waits(call, L, g)
+    if not waits:
+        raise AnchorMissing("ramp-up wait: `await asyncio.sleep(..)` before the request loop of AsyncExecutor.__call__")
+    try:
+        _, cases = schedule_zero_cases(call, L, g, defs, lat_body, ctxvar, sched)
+    except _SimUnsupported as e:
+        chk.unknown(rid, f"start-up of AsyncExecutor.__call__ cannot be walked on the virtual clock: {e}", waits[0])
+        return
+    for w in _WAITS:
+        mine = [(st, z) for w_, st, z in cases if w_ == w]
+        if not mine:
+            raise AnchorMissing(f"no start-up path of AsyncExecutor.__call__ reaches the request loop with a ramp-up wait of {w}")
+        if any(z is None or st.unknown_wait for st, z in mine):
+            chk.unknown(rid, f"the schedule's zero point (or the length of the ramp-up wait) cannot be evaluated on the virtual clock for a wait amount of {w}", waits[0])
+            continue
+        if w > 0:
+            waited = [(st, z) for st, z in mine if st.wait_end is not None]
+            if not waited:
+                chk.unknown(rid, f"no start-up path waits although the ramp-up wait amount is {w}", waits[0])
+                continue
+            bad = [(st, z) for st, z in waited if z < st.wait_end]
+            st, z = (bad or waited)[0]
+            chk.ob(rid, "client delayed by ramp-up: the schedule's zero point is not earlier than the end of the ramp-up wait", not bad, waits[0],
+                   f"virtual monotonic clock: executor entered at {_T0}, ramp-up wait {st.wait_from:g} -> {st.wait_end:g}, request loop entered at {st.t:g}, schedule zero point {z:g}"
+                   + ("" if not bad else f" - {st.wait_end - z:g} before the client may start: every request scheduled within that span is overdue at once and its latency contains the wait"),
+                   key=f"{_D}:AsyncExecutor.__call__:schedule-zero:not-before-end-of-ramp-up-wait")
+        else:
+            bad = [(st, z) for st, z in mine if not _T0 <= z <= st.t]
+            st, z = (bad or mine)[0]
+            chk.ob(rid, "client without ramp-up delay: the schedule's zero point is a clock reading taken while the client starts", not bad, waits[0],
+                   f"virtual monotonic clock: executor entered at {_T0}, request loop entered at {st.t:g}, schedule zero point {z:g}",
+                   key=f"{_D}:AsyncExecutor.__call__:schedule-zero:clock-reading-at-start")
+
+
+def _ends_request(c):
+    """a call that records `now` as the end of the current request context"""
+    if not isinstance(c, ast.Call):
+        return False
+    if last_attr(c.func) == "on_request_end":
+        return True
+    return last_attr(c.func) == "update_request_end" and len(c.args) == 1 and _is_clock(c.args[0])
+
+
+def _catches_exception(try_):
+    """the try has a handler that takes every Exception (bare / BaseException / Exception, also inside a tuple)"""
+    for h in getattr(try_, "handlers", []):
+        ts = [None] if h.type is None else (h.type.elts if isinstance(h.type, ast.Tuple) else [h.type])
+        if any(t is None or last_attr(t) in ("BaseException", "Exception") for t in ts):
+            return True
+    return False
+
+
+def frame_ends_failed_request(f):
+    """(protected, swallowed, detail) for one frame `perform_request` of the async client's call chain: protected = every exceptional exit of each awaited delegate
+    `….perform_request(..)` passes a call that records the end of the request (the call itself may fail - a missing context - and be tolerated) before the exception leaves the
+    frame; only non-Exception BaseExceptions (cancellation of the client, no request outcome) may leave unrecorded; swallowed = a failure can reach the frame's normal exit."""
+    g = cfg_of(f)
+    delegates = [n.value for n in walk_body(f) if isinstance(n, ast.Await) and isinstance(n.value, ast.Call) and last_attr(n.value.func) == "perform_request"]
+    if not delegates:
+        return False, False, "no awaited delegate perform_request call"
+    ends = [g.node_of(c) for c in walk_body(f) if _ends_request(c)]
+    # a `with <guard>:` block around the recording call (contextlib.suppress for the missing context) is entered in order to record: entering it counts as the attempt
+    # (only if the call is an unconditional statement of the block that nothing fallible precedes)
+    from sa.cfg import may_raise
+
+    def records_first(w):
+        for s_ in w.body:
+            if isinstance(s_, ast.Expr) and _ends_request(s_.value):
+                return True
+            if may_raise(s_):
+                return False
+        return False
+
+    ends += [n_ for w in walk_body(f) if isinstance(w, (ast.With, ast.AsyncWith)) and records_first(w) for n_ in g.by_ast.get(id(w), []) if n_.kind == "with"]
+    protected, swallowed, detail = True, False, ""
+    for d in delegates:
+        dn = g.node_of(d)
+        for y, lab in g.succ[dn.id]:
+            if g.normal_edge(dn.id, y, lab):
+                continue
+            s = g.nodes[y]
+            if s is g.raise_exit:
+                # leaves the frame at once: tolerable only for what an `except Exception` around the delegate does not take (CancelledError & co: the client is torn down)
+                tr = [a for a in source.ancestors(d) if isinstance(a, ast.Try) and any(d is y_ for x in a.body for y_ in ast.walk(x))]
+                if not any(_catches_exception(t) for t in tr):
+                    protected, detail = False, "a failure of the delegate leaves the frame without passing any handler"
+                continue
+            if not g.must_pass(s, ends, exits=[g.exit, g.raise_exit]):
+                protected = False
+                p_ = g.find_path(s, g.raise_exit, avoid=ends) or g.find_path(s, g.exit, avoid=ends)
+                detail = "a failure leaves through " + " ".join(g.describe_path(p_)) if p_ else "a failure leaves without recording the request end"
+            if g.exit.id in g.reachable([s]):
+                swallowed = True
+    return protected, swallowed, detail
+
+
+def failed_request_end_rule(chk, rid, repo):
+    """F39 (rally 09d2ce8): service time spans until the response - or the FAILURE - of the request. aiohttp signals on_request_exception only until the response headers have
+    arrived; elastic_transport reads the body afterwards, so a timeout / disconnect during that read reaches no trace hook and the request context keeps the time of the last
+    chunk (service time = time to first byte, the wait is booked as client overhead). Hence some frame of the async client's own call chain (node class handed to the transport,
+    transport subclass, client) must record the end of the request on every exceptional exit of its delegate call and let the failure propagate."""
+    am = repo.module(_A)
+    chk.use(am)
+    chk.rule(rid, "a wire request of the async client that fails - also after its response headers arrived - ends when it fails: the client's perform_request chain records the "
+             "request end on every exceptional exit and re-raises; the transport is built with that node class", 3,
+             "a request that times out / is disconnected while its body is read is recorded with the time to its first byte as service time and latency (on-error=continue), "
+             "the time the client kept waiting is booked as client-side overhead")
+    node_cls = [c for c in am.classes() if any(last_attr(b) == "AiohttpHttpNode" for b in c.bases)]
+    if len(node_cls) != 1:
+        raise AnchorMissing(f"{_A}: the node class of the async client (the one subclass of elastic_transport's AiohttpHttpNode), found {len(node_cls)}")
+    nc = node_cls[0]
+    chain = [nc] + [c for c in am.classes() if any(last_attr(b) in ("AsyncTransport", "AsyncElasticsearch") for b in c.bases)]
+    frames = [(c, am.methods(c)["perform_request"]) for c in chain if "perform_request" in am.methods(c)]
+    verdicts = [(c, f, *frame_ends_failed_request(f)) for c, f in frames]
+    good = [v for v in verdicts if v[2]]
+    nf = am.methods(nc).get("perform_request")
+    site = good[0][1] if good else (nf if nf is not None else nc)
+    if good:
+        detail = f"{good[0][0].name}.perform_request records the end on every exceptional exit of its delegate call"
+    elif nf is None:
+        detail = (f"{nc.name} does not override perform_request and no other frame of the chain ({', '.join(c.name for c, _ in frames) or 'none'}) records the end of a failed "
+                  "request: elastic_transport reads the response body after aiohttp's last exception signal, a failure there stops no timer")
+    else:
+        detail = "; ".join(f"{c.name}.perform_request: {d}" for c, _, ok_, _, d in verdicts if not ok_)
+    chk.ob(rid, "every exceptional exit of a wire request records the request end (node-level perform_request or a frame above it)", bool(good), site, detail,
+           key=f"{_A}:{nc.name}.perform_request:request-end-on-every-exceptional-exit")
+    sw = [v for v in verdicts if v[3]]
+    chk.ob(rid, "the failure of the wire request still propagates (recorded, not swallowed)", not sw, sw[0][1] if sw else site,
+           "" if not sw else f"{sw[0][0].name}.perform_request: a path from the failed delegate call reaches the normal exit",
+           key=f"{_A}:{nc.name}.perform_request:failure-propagates")
+    uses = [k for n in ast.walk(am.tree) if isinstance(n, ast.Call) for k in n.keywords if k.arg == "node_class"]
+    ok = bool(uses) and all(isinstance(k.value, ast.Name) and k.value.id == nc.name for k in uses)
+    chk.ob(rid, "the async transport is built with this node class", ok, uses[0].value if uses else nc, f"node_class = {[u(k.value) for k in uses] or 'not set'}",
+           key=f"{_A}:{nc.name}:node-class-of-the-async-transport")
 
 
 def flow_roles(L, defs, ctxvar, total_start, res):
@@ -120,9 +519,12 @@ def run(chk):
     chk.use(drv, ctx, "docs/metrics.rst")
     chk.explanation = (
         "Decides the timing formulas and their program order in the request loop against the definitions in docs/metrics.rst: service_time = request_end - request_start "
-        "of the request's own context; processing_time = processing_end - processing_start bracketing that context; latency = request_end - (task start + scheduled time) iff "
+        "of the request's own context; processing_time = processing_end - processing_start bracketing that context; latency = request_end - (schedule start + scheduled time) iff "
         "throttled (scheduled > 0), else service_time; the sleep-until idiom on the same scheduled time precedes the request; the issue time stamp is taken after the wait; "
-        "exactly one sampler.add per request on every normal path; positional field flow loop -> Sampler.add -> Sample attributes; uniform error result and abort condition."
+        "exactly one sampler.add per request on every normal path; positional field flow loop -> Sampler.add -> Sample attributes; uniform error result and abort condition; "
+        "the zero point of the throughput schedule (what the throttled latency adds to the scheduled time) is a clock reading not earlier than the end of the client's "
+        "ramp-up wait, decided by walking the extracted start-up statements on a virtual clock (O4.7); a wire request of the async client that fails at any stage has its end "
+        "recorded on every exceptional exit of the client's perform_request chain (O4.8)."
     )
     chk.not_decided = "numeric non-negativity (clock behaviour), growth of latency while behind schedule as a number, behaviour of third-party trace callbacks."
     doc = repo.text("docs/metrics.rst")
@@ -156,12 +558,7 @@ def run(chk):
     if not adds:
         raise AnchorMissing("self.sampler.add(...) in the request loop")
     addc = adds[0]
-    total_start = None
-    for k, v in defs.items():
-        if isinstance(v, ast.Call) and dotted(v.func) == "time.perf_counter" and L not in list(source.ancestors(v)):
-            total_start = k
-    if total_start is None:
-        raise AnchorMissing("task start timestamp (perf_counter before the loop)")
+    total_start = task_start_of(call, L, g, defs)  # anchors time_period; the schedule's zero point is a role of its own (see the throttled latency below and O4.7)
 
     def arg_named(param):
         samp = drv.methods(drv.cls("Sampler"))["add"]
@@ -169,7 +566,7 @@ def run(chk):
 
     # ---- O4.1 formulas ---------------------------------------------------------------------------------------------------------------
     chk.rule("O4.1", "service_time == request_end - request_start (same request context); processing_time == processing_end - processing_start; "
-             "latency == request_end - (task start + scheduled) if throttled else service_time; throttled == scheduled > 0", 5,
+             "latency == request_end - (schedule start + scheduled) if throttled else service_time; throttled == scheduled > 0", 5,
              "every request of a throttled (latency) / any (service, processing) task reports a different span than documented")
     st = arg_named("service_time")
     ok = False
@@ -192,7 +589,8 @@ def run(chk):
     chk.ob("O4.1", "processing_time = processing_end - processing_start (both perf_counter)", ok, pt if pt is not None else addc, detail)
     lat = arg_named("latency")
     ok_t = ok_b = ok_e = False
-    thr_expr = None
+    thr_expr = lat_body = None
+    zdetail = ""
 
     def is_throttle_test(e):  # scheduled > 0, in either orientation (e already inlined)
         return pat.is_(e, "V_s > 0", binds={"s": sched})
@@ -202,13 +600,16 @@ def run(chk):
         if isinstance(le, ast.IfExp):
             thr_expr = inline_node(le.test, defs)
             ok_t = is_throttle_test(thr_expr)
-            ok_b = ctxvar is not None and rat_equal(inline_node(le.body, defs), parse_expr(f"{ctxvar}.request_end - ({total_start} + {sched})"))
+            # request_end - (Z + scheduled) for SOME loop-invariant Z that is a reading of the monotonic clock taken while the client started up (the schedule's zero point, by
+            # role: whatever the formula adds to the scheduled time; before the ramp-up repair that was the task start, now it is a reading taken after the ramp-up wait - O4.7)
+            lat_body = le.body
+            ok_b, zdetail = schedule_zero_is_clock_reading(call, L, g, defs, lat_body, ctxvar, sched)
             ok_e = st is not None and (u(inline_node(le.orelse, defs)) == u(inline_node(st, defs)) or rat_equal(inline_node(le.orelse, defs), inline_node(st, defs)))
-            detail = f"latency = {u(inline_node(le.body, defs))} if {u(thr_expr)} else {u(inline_node(le.orelse, defs))}"
+            detail = f"latency = {u(inline_node(le.body, defs))} if {u(thr_expr)} else {u(inline_node(le.orelse, defs))}" + (f" [{zdetail}]" if zdetail else "")
         else:
             detail = f"latency is not a conditional expression: {u(le) if le is not None else None}"
     chk.ob("O4.1", "throttled == (scheduled time > 0)", ok_t, lat if lat is not None else addc, detail)
-    chk.ob("O4.1", "throttled latency = request_end - (task start + scheduled time)", ok_b, lat if lat is not None else addc, detail)
+    chk.ob("O4.1", "throttled latency = request_end - (schedule start + scheduled time)", ok_b, lat if lat is not None else addc, detail)
     chk.ob("O4.1", "unthrottled latency = service_time", ok_e, lat if lat is not None else addc, detail)
     rs = arg_named("request_start")
     ok = rs is not None and ctxvar is not None and u(inline_node(rs, defs)) == f"{ctxvar}.request_start"
@@ -285,7 +686,10 @@ def run(chk):
         gs = guards(s, stop=L)
         fs = pat.fact_nodes(s, stop=L, path_sensitive=False)  # atomic guard facts of the explicit branches: arm position, `not`, orientation and conjunct order do not matter
         rest_def = defs.get(argv.id) if isinstance(argv, ast.Name) else argv
-        T_ok = rest_def is not None and rat_equal(inline_node(rest_def, {k: v for k, v in defs.items() if k != u(argv)}), parse_expr(f"{total_start} + {sched} - time.perf_counter()"))
+        # the T of `rest = T - now()` is the very T the throttled latency subtracts from request_end:  rest + latency == request_end - now()   (whatever T's zero point is called)
+        T_ok = rest_def is not None and lat_body is not None and ctxvar is not None and rat_equal(
+            ast.BinOp(left=inline_node(rest_def, {k: v for k, v in defs.items() if k != u(argv)}), op=ast.Add(), right=inline_node(lat_body, defs)),
+            parse_expr(f"{ctxvar}.request_end - time.perf_counter()"))
         pos_guard = [f for f in fs if pat.is_(f, "E_rest > 0", binds={"rest": u(argv)})]
         # the wait is under the very throttle condition the latency formula tests (compared after inlining, so a flag variable or the spelled-out comparison both do)
         thr_guard = [f for f in fs if thr_expr is not None and (u(inline_node(f, defs)) == u(thr_expr) or (is_throttle_test(thr_expr) and is_throttle_test(inline_node(f, defs))))]
@@ -355,8 +759,29 @@ def run(chk):
 
     check_execute_single(chk, drv, "O4.6", runs)
 
+    pending = None
+    try:
+        schedule_start_rule(chk, "O4.7", call, L, g, defs, lat_body, ctxvar, sched)
+    except AnchorMissing as e:  # a role of O4.7 that cannot be located must not keep O4.8 from being evaluated
+        pending = e
+    failed_request_end_rule(chk, "O4.8", repo)
+    if pending is not None:
+        raise pending
+
 
 def trace_hook_table(chk, rid, repo):
+    """The trace-signal table is owned by rules/C18.py since F39 (there the row of aiohttp's exception signal holds iff a failed wire request's end is recorded unconditionally by
+    at least one of the exception trace hook and the node-level perform_request handler - the latter is also O4.8 here). Same signature, same five instances, same keys. The
+    former local definition is kept as a fall-back for a tree in which rules/C18.py does not define the table itself."""
+    import rules.C18 as _c18
+
+    shared = getattr(_c18, "trace_hook_table", None)
+    if shared is not None and getattr(shared, "__module__", "") == "rules.C18":
+        return shared(chk, rid, repo)
+    return _trace_hook_table_local(chk, rid, repo)
+
+
+def _trace_hook_table_local(chk, rid, repo):
     from sa.classes import is_logging_stmt
 
     """The aiohttp trace signals that start / stop the service-time clock (shared with C18): the start callback is registered for request start only; the stop
@@ -512,6 +937,8 @@ def check_execute_single(chk, drv, RID, runs=()):
 
 from sa.selftest import V  # noqa: E402
 
+_F39_METHOD = ("    async def perform_request(self, *args, **kwargs):\n        try:\n            return await super().perform_request(*args, **kwargs)\n        except BaseException:\n            # aiohttp only signals `on_request_exception` until the response *headers* have arrived. A request that fails\n            # later (timeout / disconnect while the body is read) ends now and not when its headers were received.\n            try:\n                RequestContextHolder.on_request_end()\n            except LookupError:\n                pass\n            raise\n\n")
+
 VARIANTS = [
     V("latency from request_start", "break", _D, "                latency = request_end - absolute_expected_schedule_time if throughput_throttled else service_time", "                latency = request_end - request_start if throughput_throttled else service_time", "O4.1"),
     V("service time from processing_end", "break", _D, "                service_time = request_end - request_start", "                service_time = processing_end - request_start", "O4.1"),
@@ -539,6 +966,49 @@ VARIANTS = [
     # preserving
     V("keyword arguments at the call", "keep", _D, "                    request_start,\n                    latency,\n                    service_time,\n                    processing_time,\n                    throughput,\n                    total_ops,\n                    total_ops_unit,\n                    time_period,\n                    progress,\n                    request_meta_data.pop(\"dependent_timing\", None),",
       "                    request_start,\n                    latency,\n                    service_time,\n                    processing_time=processing_time,\n                    throughput=throughput,\n                    ops=total_ops,\n                    ops_unit=total_ops_unit,\n                    time_period=time_period,\n                    percent_completed=progress,\n                    dependent_timing=request_meta_data.pop(\"dependent_timing\", None),"),
-    V("inverted conditional latency", "keep", _D, "                latency = request_end - absolute_expected_schedule_time if throughput_throttled else service_time", "                latency = request_end - (total_start + expected_scheduled_time) if throughput_throttled else service_time"),
+    V("inverted conditional latency", "keep", _D, "                latency = request_end - absolute_expected_schedule_time if throughput_throttled else service_time", "                latency = request_end - (schedule_start + expected_scheduled_time) if throughput_throttled else service_time"),
     V("temporaries for the context values", "keep", _D, "                service_time = request_end - request_start", "                duration = request_end - request_start\n                service_time = duration"),
+    # F40 (rally 249cfef): the schedule's zero point is taken after the ramp-up wait
+    [V("F40 reverted: schedule anchored at the task start taken before the ramp-up wait", "break", _D,
+       "        # the client's schedule starts when the client starts, i.e. after any ramp-up wait\n        schedule_start = time.perf_counter() if rampup_wait_time else total_start\n", "", "O4.7"),
+     V("", "break", _D, "                absolute_expected_schedule_time = schedule_start + expected_scheduled_time", "                absolute_expected_schedule_time = total_start + expected_scheduled_time")],
+    V("F40 equivalent break: schedule start is an alias of the task start", "break", _D, "        schedule_start = time.perf_counter() if rampup_wait_time else total_start\n", "        schedule_start = total_start\n", "O4.7"),
+    V("F40 equivalent break: schedule start read after the wait only when there was NO wait", "break", _D, "        schedule_start = time.perf_counter() if rampup_wait_time else total_start\n",
+      "        schedule_start = total_start if rampup_wait_time else time.perf_counter()\n", "O4.7"),
+    V("F40 half repair: sleep-until on the new zero point, latency still from the task start", "break", _D,
+      "                latency = request_end - absolute_expected_schedule_time if throughput_throttled else service_time",
+      "                latency = request_end - (total_start + expected_scheduled_time) if throughput_throttled else service_time", "O4."),
+    V("schedule zero point is a constant, not a reading of the clock", "break", _D, "        schedule_start = time.perf_counter() if rampup_wait_time else total_start\n", "        schedule_start = 0.0\n", "O4.1"),
+    V("F40 respelled: zero point re-read unconditionally after the ramp-up branch", "keep", _D, "        schedule_start = time.perf_counter() if rampup_wait_time else total_start\n", "        schedule_start = time.perf_counter()\n"),
+    V("F40 respelled: zero point chosen by an if/else statement with the arms the other way round", "keep", _D, "        schedule_start = time.perf_counter() if rampup_wait_time else total_start\n",
+      "        if not rampup_wait_time:\n            schedule_start = total_start\n        else:\n            schedule_start = time.perf_counter()\n"),
+    V("F40 respelled: zero point read inside the ramp-up branch right after the sleep", "keep", _D,
+      "            await asyncio.sleep(rampup_wait_time)\n        # the client's schedule starts when the client starts, i.e. after any ramp-up wait\n        schedule_start = time.perf_counter() if rampup_wait_time else total_start\n",
+      "            await asyncio.sleep(rampup_wait_time)\n            schedule_start = time.perf_counter()\n        else:\n            schedule_start = total_start\n"),
+    V("F40 respelled: test on the wait amount spelled as a comparison", "keep", _D, "        schedule_start = time.perf_counter() if rampup_wait_time else total_start\n",
+      "        schedule_start = time.perf_counter() if rampup_wait_time > 0 else total_start\n"),
+    V("F40 other repair: zero point = task start + the ramp-up delay", "keep", _D, "        schedule_start = time.perf_counter() if rampup_wait_time else total_start\n",
+      "        schedule_start = total_start + rampup_wait_time\n"),
+    V("F40 respelled: zero point added inside the latency formula, sleep-until on the same sum", "keep", _D,
+      "                latency = request_end - absolute_expected_schedule_time if throughput_throttled else service_time",
+      "                latency = request_end - expected_scheduled_time - schedule_start if throughput_throttled else service_time"),
+    # F39 (rally 09d2ce8): a failed wire request ends when it fails
+    V("F39 reverted: the node class does not record the end of a failed request", "break", _A, _F39_METHOD, "", "O4.8"),
+    V("F39 break: the end of a failed request is only recorded if none was recorded before (first byte wins again)", "break", _A,
+      "            try:\n                RequestContextHolder.on_request_end()\n            except LookupError:\n                pass\n            raise\n",
+      "            try:\n                if RequestContextHolder.request_context.get().get(\"request_end\") is None:\n                    RequestContextHolder.on_request_end()\n            except LookupError:\n                pass\n            raise\n", "O4.8"),
+    V("F39 break: only client errors of aiohttp end the request, a timeout does not", "break", _A, "        except BaseException:\n            # aiohttp only signals", "        except aiohttp.ClientError:\n            # aiohttp only signals", "O4.8"),
+    V("F39 break: the failure is recorded and swallowed", "break", _A, "            except LookupError:\n                pass\n            raise\n", "            except LookupError:\n                pass\n", "O4.8"),
+    V("F39 break: the transport is built with the library's node class", "break", _A, "node_class=RallyAiohttpHttpNode", "node_class=AiohttpHttpNode", "O4.8"),
+    V("F39 respelled: handler for Exception, result through a temporary, end recorded through update_request_end", "keep", _A,
+      "        try:\n            return await super().perform_request(*args, **kwargs)\n        except BaseException:\n            # aiohttp only signals `on_request_exception` until the response *headers* have arrived. A request that fails\n            # later (timeout / disconnect while the body is read) ends now and not when its headers were received.\n            try:\n                RequestContextHolder.on_request_end()\n",
+      "        try:\n            response = await super().perform_request(*args, **kwargs)\n            return response\n        except Exception:\n            try:\n                RequestContextHolder.update_request_end(time.perf_counter())\n"),
+    V("F39 respelled: missing context suppressed with contextlib, explicit re-raise of the bound exception", "keep", _A,
+      "        except BaseException:\n            # aiohttp only signals `on_request_exception` until the response *headers* have arrived. A request that fails\n            # later (timeout / disconnect while the body is read) ends now and not when its headers were received.\n            try:\n                RequestContextHolder.on_request_end()\n            except LookupError:\n                pass\n            raise\n",
+      "        except BaseException as failure:\n            import contextlib\n\n            with contextlib.suppress(LookupError):\n                RequestContextHolder.on_request_end()\n            raise failure\n"),
+    [V("F39 other repair: the end of a failed request is recorded by the client's perform_request around the transport call", "keep", _A,
+       _F39_METHOD, ""),
+     V("", "keep", _A,
+       "        meta, resp_body = await self.transport.perform_request(\n            method,\n            target,\n            headers=request_headers,\n            body=body,\n            request_timeout=self._request_timeout,\n            max_retries=self._max_retries,\n            retry_on_status=self._retry_on_status,\n            retry_on_timeout=self._retry_on_timeout,\n            client_meta=self._client_meta,\n        )\n",
+       "        try:\n            meta, resp_body = await self.transport.perform_request(\n                method,\n                target,\n                headers=request_headers,\n                body=body,\n                request_timeout=self._request_timeout,\n                max_retries=self._max_retries,\n                retry_on_status=self._retry_on_status,\n                retry_on_timeout=self._retry_on_timeout,\n                client_meta=self._client_meta,\n            )\n        except BaseException:\n            self.on_request_end()\n            raise\n")],
 ]
